@@ -20,6 +20,7 @@ first (`mapInsert`); its *iteration order* in `into_uri` is unspecified in Rust,
 takes the enumeration `qs` explicitly and the theorems quantify over every permutation.
 -/
 import AskarModel.Base.Bytes
+import AskarModel.Generated.Flags
 
 namespace Askar.Uri
 
@@ -28,10 +29,10 @@ abbrev Str := List UInt8
 /-- ASCII literal → bytes (only used with ASCII literals) -/
 def lit (s : String) : Str := s.toList.map fun c => UInt8.ofNat c.toNat
 
-/-- **The switch for defect D1.**  What `into_uri` writes between two `key=value` pairs of the
-    query.  Pinned tree: nothing (`for (k, v) in self.query { … }` pushes no separator).
-    After the fix `proposals/C08-D1.diff` is committed, set this to `[0x26]` (`&`). -/
-def queryPairSeparator : Str := []
+/-- What `into_uri` writes between two `key=value` pairs of the query.  Read from the SOURCE on
+    every run (tools/extract.py → `Generated.Flags.uriQueryAmpersand`): `&` when the loop over
+    `self.query` pushes a separator, nothing otherwise (defect D1, fixed in 3030f32). -/
+def queryPairSeparator : Str := if Askar.Generated.Flags.uriQueryAmpersand then [0x26] else []
 
 /-! ### Rust string primitives -/
 
